@@ -48,7 +48,8 @@ def run(chk):
             if rng.random() < 0.3:
                 c["empty_buckets"] = [[rng.choice(S.VARIANTS), rng.choice(S.ARCHES)]]       # a cell without images is not content
             cases.append(c)
-    cases = cases[:N[chk.tier]]
+    big = [c for c in cases if len(c["pool"]) > 50]                # the cells with many images stay in the sample
+    cases = [c for c in cases if len(c["pool"]) <= 50][:N[chk.tier] - len(big)] + big
     # boundary probes: one numeric attribute of one image carries a value next to its documented type (a float as os.stat
     # returns it, a digit string). The library may refuse such an image; if it agrees to write it, the cycle must preserve it.
     import copy as _copy
